@@ -125,7 +125,7 @@ func handleUIDSearch(deps ServerDeps, conn net.Conn, tag string, parts []string,
 	// Get search criteria (everything after "UID SEARCH") and evaluate them with the evaluator SEARCH uses;
 	// keys it does not know are skipped, as before
 	searchCriteria := strings.Join(parts[3:], " ")
-	_, uids, err := message.EvaluateSearch(deps, targetDB, state.SelectedMailboxID, searchCriteria, "US-ASCII")
+	_, uids, err := message.EvaluateSearch(deps, targetDB, state.SelectedMailboxID, searchCriteria, "US-ASCII", false)
 	if err != nil {
 		deps.SendResponse(conn, fmt.Sprintf("%s NO UID SEARCH failed: %v", tag, err))
 		return
